@@ -13,7 +13,8 @@ REQUIRED = ['getNBest_scale', 'plurality_scale', 'highestAverages_scale', 'sumVa
             'relativeThreshold_scale', 'quotaDistributor_scale', 'largestRemainder_scale',
             'rankedToPositional_linear', 'approvalToSimple_linear', 'rankedToCondorcet_linear', 'positionalRule_scale',
             'approvalRule_scale', 'condorcetEv_scale', 'condorcetSet_scale', 'rankedToCondorcetVotes_linear',
-            'condorcetRule_scale', 'condorcetSetRule_scale', 'benham_scale', 'tideman_scale']
+            'condorcetRule_scale', 'condorcetSetRule_scale', 'benham_scale', 'tideman_scale',
+            'spav_scale', 'pav_scale', 'pav_fresh_scale']
 # families whose scale invariance is proved in Lean (Props/C11.lean); the rest is covered by the oracle only
 PROVED_FAMILIES = ['plurality', 'ha_d_hondt', 'ha_sainte_lague', 'ha_imperiali', 'ha_danish', 'ha_macau', 'quota_selector_hare',
                    'rel_threshold_5pc', 'rel_threshold_third',
@@ -23,7 +24,8 @@ PROVED_FAMILIES = ['plurality', 'ha_d_hondt', 'ha_sainte_lague', 'ha_imperiali',
                    'condorcet_rankedpairs_winvotes', 'condorcet_rankedpairs_margins', 'condorcet_rankedpairs_pwo',
                    'condorcet_copeland_2o', 'condorcet_copeland_raw', 'condorcet_schulze', 'condorcet_kemeny_young',
                    'condorcet_minimax_winvotes', 'condorcet_minimax_margins', 'condorcet_minimax_pwo',
-                   'condorcet_winner', 'smith_set', 'schwartz_set', 'benham', 'tideman_alternative']
+                   'condorcet_winner', 'smith_set', 'schwartz_set', 'benham', 'tideman_alternative',
+                   'approval_pav', 'approval_spav']
 MULTIPLIERS = [2, 3, 7, 10 ** 6, 10 ** 25 + 7]
 SMALL_MULTIPLIERS = [2, 3, 7]
 NAMES = Names(prefix='cand')
@@ -223,6 +225,8 @@ def model_line(case):
             if case['n'] != 1:
                 return None          # the C05 models are the single-winner evaluators
             return {'op': 'benham' if f == 'benham' else 'tideman', 'profile': prof}
+        if f in ('approval_pav', 'approval_spav'):
+            return {'op': f[len('approval_'):], 'votes': prof, 'n': case['n']}
         if f.startswith('lr_') or f.startswith('qd_'):
             return {'op': f[:2], 'quota': f[3:], 'accept_equal': True, 'on_overaward': 'error', 'n': case['n'], 'votes': prof,
                     'prev': [], 'max': []}
@@ -242,6 +246,9 @@ def compare(case, iobs, mobs):
     if isinstance(mobs, dict) and 'res' in mobs and 'grp' in mobs:      # second-order Copeland: the C05 canonicalisation
         from props import C05
         return C05.compare({'op': 'eval', 'name': 'copeland_2o'}, got, mobs)
+    if case['op'] == 'scale' and case['family'] == 'approval_pav':       # the C12 canonicalisation (order among equal drops)
+        from props import C12
+        return C12._cmp_keyed(got, mobs)
     if isinstance(mobs, dict) and 'sel' in mobs and 'keys' in mobs:
         if isinstance(got, dict):
             return f'impl={json.dumps(got)} model={json.dumps(mobs["sel"])}'
